@@ -1437,3 +1437,149 @@ def run_arraybound(prog, ctx=None):
                 res.ob("%s:%s" % (f.qn, norm(show(n, f))), ok, f, n.get("l", 0),
                        "" if ok else "%s[] holds %s elements but the loop runs to %s" % (comp[aid][0], comp[aid][2], bound["n"]))
     return res
+
+
+def run_cursorsync(prog, ctx=None):
+    """CURSORSYNC: after a call that advances a message cursor X (mpt_message_read(&X, n, ..), n not 0) a local that was loaded
+    from X.base / X.used / X.cont is reloaded from X, not stepped by hand (++v, v += k): the hand-stepped copy is wrong as soon as
+    the read crossed into the next fragment.  Checked on the straight-line code that follows each such call (up to the next
+    reload of that local or the next loop head)."""
+    res = Result("CURSORSYNC")
+    files = set(ctx.get("files", [])) if ctx else None
+    FIELDS = ("base", "used", "cont", "clen")
+    for f in funcs_of(prog, files):
+        track = {}       # var id -> (struct var id, name)
+        for b, i, n in f.walk_all():
+            if n.get("k") == "bin" and n.get("op") == "=":
+                l = strip(n["a"], lvalue_to_rvalue=False)
+                r = strip(n["b"], all_casts=True)
+                if l.get("k") == "ref" and "id" in l["d"] and r.get("k") == "mem" and not r.get("arrow") and r.get("f") in FIELDS:
+                    xb = strip(r["b"], lvalue_to_rvalue=False)
+                    if xb.get("k") == "ref" and "id" in xb["d"] and xb["d"].get("dk") == "local":
+                        track[l["d"]["id"]] = (xb["d"]["id"], l["d"]["n"])
+        if not track:
+            continue
+        loops = natural_loops(f)
+        heads = set(loops)
+        for b, i, e in f.elements():
+            if not (e.get("k") == "call" and callee_name(e) == "mpt_message_read" and e.get("args")):
+                continue
+            a0 = strip(e["args"][0], all_casts=True)
+            if not (a0.get("k") == "un" and a0.get("op") == "&"):
+                continue
+            xb = strip(a0["e"], lvalue_to_rvalue=False)
+            if not (xb.get("k") == "ref" and "id" in xb["d"]):
+                continue
+            if len(e["args"]) > 1 and cval(e["args"][1]) == 0:
+                continue
+            xid = xb["d"]["id"]
+            vars_ = {v for v, (x, nm) in track.items() if x == xid}
+            if not vars_:
+                continue
+            bad = None
+            # walk forward: rest of this block, then successors (not through loop heads), until every var was reloaded
+            work = [(b.id, i + 1, frozenset(vars_), 0)]
+            seen = set()
+            while work and bad is None:
+                bid, start, live, depth = work.pop()
+                if (bid, live) in seen or depth > 4:
+                    continue
+                seen.add((bid, live))
+                live = set(live)
+                blk = f.blocks[bid]
+                for el in blk.el[start:]:
+                    if el.get("k") == "call" and callee_name(el) == "mpt_message_read":
+                        live = set()
+                        break
+                    for n in walk_own(el):
+                        if n.get("k") == "un" and n.get("op") in ("++", "--"):
+                            t = strip(n["e"], lvalue_to_rvalue=False)
+                            if t.get("k") == "ref" and t["d"].get("id") in live:
+                                bad = (t["d"]["n"], el)
+                        elif n.get("k") == "bin" and n.get("op") in ("+=", "-="):
+                            t = strip(n["a"], lvalue_to_rvalue=False)
+                            if t.get("k") == "ref" and t["d"].get("id") in live:
+                                bad = (t["d"]["n"], el)
+                        elif n.get("k") == "bin" and n.get("op") == "=":
+                            t = strip(n["a"], lvalue_to_rvalue=False)
+                            if t.get("k") == "ref" and t["d"].get("id") in live:
+                                live.discard(t["d"]["id"])
+                    if bad:
+                        break
+                if bad or not live:
+                    continue
+                for sx in blk.succ:
+                    if sx is not None and sx not in heads:
+                        work.append((sx, 0, frozenset(live), depth + 1))
+            res.ob("%s:after %s" % (f.qn, norm(show(e, f))[:50]), bad is None, f, (bad[1].get("l") if bad else e.get("l")) or f.line,
+                   "" if bad is None else "`%s` was loaded from the cursor before this call advanced it and is stepped by hand in `%s` instead of being reloaded" % (bad[0], norm(show(bad[1], f))[:60]))
+    return res
+
+
+def run_fragall(prog, ctx=None):
+    """FRAGALL: a function that walks the fragments of a message parameter (it reads M->clen) does not report success from
+    "the head fragment is empty" alone: from the zero edge of a test of M->used no return of a non-negative value is reachable
+    without a read of M->clen.  Data may sit behind an empty first fragment."""
+    res = Result("FRAGALL")
+    files = set(ctx.get("files", [])) if ctx else None
+    for f in funcs_of(prog, files):
+        mparams = {}
+        for p in f.params:
+            T = f.T(p["t"])
+            to = f.T(T.get("to")) if T.get("k") == "ptr" else {}
+            if to.get("k") == "record" and to.get("name", "").split("::")[-1] in ("mpt_message", "message"):
+                mparams[p["id"]] = p["n"]
+        if not mparams:
+            continue
+
+        def is_field(n, fld):
+            n = strip(n, all_casts=True)
+            if n.get("k") == "bin" and n.get("op") == "=":
+                n = strip(n["b"], all_casts=True)
+            if n.get("k") == "mem" and n.get("arrow") and n.get("f") == fld:
+                x = strip(n["b"], all_casts=True)
+                return x.get("k") == "ref" and x["d"].get("id") in mparams
+            return False
+        readers = set()
+        for b, i, n in f.walk_all():
+            if n.get("k") == "mem" and is_field(n, "clen"):
+                readers.add(b.id)
+        if not readers:
+            continue
+        succ_rets = []
+        for b, i, e in f.elements():
+            if e.get("k") == "ret" and e.get("e") is not None:
+                v = cval(e["e"])
+                if v is not None and v < 0:
+                    continue
+                if f.T(f.ret).get("k") == "ptr" and v == 0:
+                    continue
+                succ_rets.append((b, e))
+        # zero edges of tests of M->used
+        for bid, blk in f.blocks.items():
+            if not (blk.term and blk.term.get("cond") is not None and len(blk.succ) == 2):
+                continue
+            c = blk.term["cond"]
+            cs = strip(c, all_casts=True)
+            if blk.term.get("cls") != "BinaryOperator":
+                while cs.get("k") == "bin" and cs.get("op") in ("&&", "||"):
+                    cs = strip(cs["b"], all_casts=True)
+            neg = False
+            while cs.get("k") == "un" and cs.get("op") == "!":
+                neg = not neg
+                cs = strip(cs["e"], all_casts=True)
+            zero_edge = None
+            if is_field(cs, "used"):
+                zero_edge = 0 if neg else 1
+            elif cs.get("k") == "bin" and cs.get("op") in ("==", "!=") and cval(cs["b"]) == 0 and is_field(cs["a"], "used"):
+                z = 0 if cs["op"] == "==" else 1
+                zero_edge = z if not neg else 1 - z
+            if zero_edge is None or blk.succ[zero_edge] is None:
+                continue
+            z = blk.succ[zero_edge]
+            reach = f.reachable_from(z, avoid=readers) if z not in readers else set()
+            bad = [e for rb, e in succ_rets if rb.id in reach]
+            res.ob("%s:empty head at %s" % (f.qn, norm(show(c, f))[:40]), not bad, f, c.get("l", f.line),
+                   "" if not bad else "when the head fragment is empty `%s` is reached without a look at %s->clen: data behind an empty first fragment is ignored" % (
+                       norm(show(bad[0], f))[:40], list(mparams.values())[0]))
+    return res
